@@ -623,10 +623,10 @@ func c07Run(rc *engine.RunCtx) *engine.Result {
 	var mu sync.Mutex
 	outcomes := map[string]int{}
 	sites := map[string]int{}
-	var execs, faultRuns, points, gasRuns atomic.Int64
+	var execs, faultRuns, points, gasRuns, maxHits atomic.Int64
 	maxDev := 1
 	if rc.Thorough() {
-		maxDev = 2
+		maxDev = 3
 	}
 	report := func(v *engine.Violation, in c07Input, plan map[int]string) {
 		v.Path = []string{c07Encode(in, plan)}
@@ -713,6 +713,9 @@ func c07Run(rc *engine.RunCtx) *engine.Result {
 							if len(o2.hit) <= len(plan) { // "error" at a site that cannot return one: no deviation happened
 								continue
 							}
+							for h := int64(len(o2.hit)); h > maxHits.Load(); {
+								maxHits.Store(h)
+							}
 							mu.Lock()
 							sites[calls[pt]+":"+kind]++
 							outcomes["fault→"+o2.outcome]++
@@ -776,6 +779,8 @@ func c07Run(rc *engine.RunCtx) *engine.Result {
 	res.Coverage["fault_runs"] = faultRuns.Load()
 	res.Coverage["fault_points"] = points.Load()
 	res.Coverage["deviation_bound"] = maxDev
+	res.Coverage["most_faults_in_one_run"] = maxHits.Load()
+	res.Coverage["deviation_bound_saturated"] = maxHits.Load() < int64(maxDev) // no execution offers a call after that many faults: a larger bound explores nothing new
 	res.Coverage["fault_sites"] = sites
 	res.Coverage["outcomes"] = outcomes
 	res.Coverage["inputs_with_fault_exploration"] = len(faulted)
